@@ -13,8 +13,8 @@ def mcs_default(tier):
     out.append(lambda: proxyfam.mc("proxy_policy_flips_1res_2clients", timeout=400, NRes=1, NClients=2, PolicyFlips=True,
                                    ValKinds={"etag", "none"}, MaxVer=2, MaxNow=3, MaxX=3, Kinds={"get"}, Conds={"none"}, **SMALL))
     if tier == "thorough":
-        out.append(lambda: proxyfam.mc("proxy_policy_flips_reval", timeout=900, NRes=1, NClients=2, PolicyFlips=True,
-                                       ValKinds={"etag", "none"}, MaxVer=2, MaxNow=6, MaxX=4, Kinds={"get"}, Conds={"none", "inm"}, **SMALL))
+        out.append(lambda: proxyfam.mc("proxy_policy_flips_reval", timeout=1500, NRes=1, NClients=2, PolicyFlips=True,
+                                       ValKinds={"etag", "none"}, MaxVer=2, MaxNow=5, MaxX=4, Kinds={"get"}, Conds={"none", "inm"}, **SMALL))
         out.append(lambda: proxyfam.mc("proxy_1res_3clients_get", timeout=900, coverage=True, NRes=1, NClients=3,
                                        ValKinds={"etag", "none"}, MaxVer=2, MaxNow=4, MaxX=5, Kinds={"get"}, Conds={"none"}, **SMALL))
         out.append(lambda: proxyfam.mc("proxy_2res_2clients", timeout=1500, NRes=2, NClients=2, ValKinds={"etag"}, MaxVer=2,
